@@ -29,12 +29,13 @@ claimed = {
             "5.C02"),
     "C03": ("Theorems: through every handle-taking access path of the Storage API (get, get_mut, contains, insert, remove, "
             "entry, get_mut_or_default) a handle that is not alive yields the absent outcome and leaves the storage equal, "
-            "for every storage kind, wrapper and mask content; a dead handle stays dead in every accepted continuation. "
+            "for every storage kind, wrapper and mask content; a dead handle stays dead in every accepted continuation; "
             "Tie: stale-handle probe matrices (index reused 0..n times, merged or not) over all 16 storages, every path, "
             "occupant read before and after; a rejection by the plain-map specification at an access through a handle the "
             "specification knows to be dead is the violation; the join paths are covered too: the lending join's lookup by "
             "entity and the restricted items' get_other / get_other_mut are run with dead and stale (reused index) handles "
-            "and a rejection at such a join is the same violation (theorems: C06 lending lookup, C13 other-entity rule).",
+            "and a rejection at such a join is the same violation; theorems: the lending lookup of a dead handle yields no "
+            "item and changes nothing, get_other / get_other_mut of a dead handle answer None.",
             "5.C03"),
     "C04": ("Theorems: each of the five raw storage kinds refines the plain map under the UnprotectedStorage protocol "
             "(insert, get, write, remove with the dense swap-remove fix-up, clean), slice views agree (vec, default, dense "
